@@ -164,11 +164,14 @@ where
     >(
         i: S,
     ) -> IResult<S, Vec<Tree>, E> {
-        use nom::character::complete::{char, none_of, space0};
+        use nom::character::complete::{char, space0};
+        // `none_of` must not be used on byte input: it advances by the UTF-8 length of the
+        // byte read as a char (2 for bytes >= 0x80) and slices past the end of the input.
+        let not_blank = |i: S| i.parse_template1(|c| !" \n".contains(c));
         context(
             "trees",
             cut(separated_list0(
-                delimited(space0, char('\n'), pair(S::sp, peek(none_of(" \n")))),
+                delimited(space0, char('\n'), pair(S::sp, peek(not_blank))),
                 Self::parse_tree,
             )),
         )
